@@ -26,7 +26,7 @@ def fail(**kw):
 
 
 def _same(a, b):
-    return a is b or (type(a) is type(b) and a == b)
+    return a is b or (type(a) is type(b) and isinstance(a, (int, str, float, bool, bytes, type(None), tuple, frozenset)) and a == b)
 
 
 NATIVE_UF = {}          # name -> the real function an uninterpreted symbol of the contracts stands for (set by an area, where there is one)
@@ -49,6 +49,14 @@ def _store(m, k, v):
     d = dict(m)
     d[k] = v
     return d
+
+
+def _specfun(name, params, body):
+    """a specification function with a body, evaluated like a clause over its parameters"""
+    def f(*args):
+        env = dict(zip(params, args))
+        return eval(_cache.setdefault("specfun:" + name, compile_clause(body)), dict(HELPERS, **env))
+    return f
 
 
 class Tr(ast.NodeTransformer):
@@ -91,6 +99,8 @@ def compile_clause(text):
 
 
 _cache = {}
+for _n, _d in CONTRACTS.pop("__specfuns__", {}).items():
+    HELPERS.setdefault(_n, _specfun(_n, _d["params"], _d["body"]))
 
 
 def evaluate(text, env, pre_env, memo, universe):
@@ -364,7 +374,35 @@ def area_responses():
         check_call(P + "::Response.get_key", lambda: obj.get_key(), dict(self=obj))
 
 
-AREAS = {"responses": area_responses, "obfuscators": area_obfuscators, "dr": area_dr, "config": area_config, "blacklist": area_blacklist, "parsr": area_parsr}
+def area_rpm():
+    sys.path.insert(0, os.path.join(os.path.dirname(os.path.abspath(__file__)), "..", "specs"))
+    from rpmvercmp_spec import S
+    from insights.parsers.installed_rpms import InstalledRpm, InstalledRpms
+    from insights.parsers.rpm_vercmp import rpm_version_compare
+    from insights.tests import context_wrap
+    V, I = "insights/parsers/rpm_vercmp.py", "insights/parsers/installed_rpms.py"
+
+    def parsable(x):
+        try:
+            int(x)
+            return True
+        except (TypeError, ValueError):
+            return False
+    # the contracts' symbols: S is RPM's segment comparison (the transliterated rpmvercmp.c), int_of / int_parsable are int()
+    NATIVE_UF.update(S=S, int_of=int, int_parsable=parsable, is_rpm=lambda o: isinstance(o, InstalledRpm))
+    epochs, vers, rels = ["0", "1", "10", "(none)", "x"], ["1.0", "1.10", "1.0~rc1", "1.0^git1", "01.0", "a"], ["1", "2.el7", "1.el7_9"]
+    pkgs = [InstalledRpm({"name": n, "epoch": e, "version": v, "release": r, "arch": "x86_64"})
+            for n in ("foo", "bar") for e in epochs for v in vers for r in rels]
+    for _ in range(700):
+        a, b = rnd.choice(pkgs), rnd.choice(pkgs)
+        if rnd.random() < 0.1:
+            b = a
+        check_call(V + "::rpm_version_compare", lambda: rpm_version_compare(a, b), dict(left=a, right=b))
+        for op in ("__eq__", "__lt__", "__ne__", "__gt__", "__ge__", "__le__"):
+            check_call(I + "::InstalledRpm." + op, lambda: getattr(a, op)(b), dict(self=a, other=b))
+
+
+AREAS = {"rpm": area_rpm, "responses": area_responses, "obfuscators": area_obfuscators, "dr": area_dr, "config": area_config, "blacklist": area_blacklist, "parsr": area_parsr}
 AREAS[area]()
 print(json.dumps({"ok": True, "area": area, "calls": stats["calls"], "clauses_evaluated": stats["clauses_evaluated"], "clauses_skipped": stats["clauses_skipped"],
                   "functions": sorted(stats["functions"]), "skipped_because": sorted(stats["skipped_examples"])[:12]}))
